@@ -173,7 +173,9 @@ def step (s : St) (line : String) : St × String :=
       | none => (s, "-\tunparsed\tFAIL unparsed emulator snapshot")
       | some sn =>
         let istr := VaxisModel.Model.EmuIO.renderSnap sn.e
-        let out := match s.emuM with
+        -- a frame of this case already failed the oracle (reported as a violation / known finding, e.g.
+        -- F112d where the real parser merges two cells' graphemes into one cluster): no cascade
+        let out := if s.dead then "-\t-\t-" else match s.emuM with
           | some e =>
             let (a, b) := C05diff (VaxisModel.Model.EmuIO.renderSnap { e with hasVx := false }) istr
             s!"{a}\t{b}\t-"
